@@ -75,8 +75,12 @@ def gen_case(rng):
             pre = [t0, t1, 0, F]
         if rng.random() < 0.06:
             pre = [t0, t0, f0, f1]        # empty (still unit-step) preselection of dumps
+    # the same load through TelstateDataSource (chunk_info alignment happens inside, with and without the
+    # flag-upgrade step), and a second pair of loads from a view-returning in-memory store with whole arrays absent
+    via_source = rng.choice([None, True, False, False])
+    dict_absent = sorted(rng.sample(ARRAYS, rng.randint(1, 2))) if rng.random() < 0.3 else None
     return dict(kind='vfw', T=T, F=F, B=B, dumps=dumps, chunks=chunks, missing=missing, pre=pre,
-                seed=rng.randrange(2 ** 31))
+                via_source=via_source, dict_absent=dict_absent, seed=rng.randrange(2 ** 31))
 
 
 def stored_arrays(case):
@@ -123,6 +127,7 @@ def run_impl(case):
                     sl = tuple(slice(int(starts[d][i]), int(starts[d][i + 1])) for d, i in enumerate(g))
                     cname, _ = store.chunk_metadata(store.join(prefix, a), sl)
                     os.remove(os.path.join(tmp, cname + '.npy'))
+            orig_chunk_info = {a: dict(v) for a, v in chunk_info.items()}
             chunk_info = _align_chunk_info(chunk_info)
             res['aligned'] = {a: [list(c) for c in chunk_info[a]['chunks']] for a in ARRAYS}
             kw = {}
@@ -134,11 +139,86 @@ def run_impl(case):
             res['flags'] = vfw.flags.compute()
             res['weights'] = vfw.weights.compute()
             res['chunks'] = {'vis': [list(c) for c in vfw.vis.chunks], 'flags': [list(c) for c in vfw.flags.chunks]}
+            if case.get('via_source') is not None:
+                res['src'] = load_via_source(case, store, orig_chunk_info, prefix)
+            if case.get('dict_absent') and len(set(case['dumps'].values())) == 1:
+                # (phantom trailing chunks lie outside a DictChunkStore array: a zero-length view, which that store
+                # reports as BadChunk - the dict store has no notion of a missing chunk inside a present array)
+                res['dict'] = load_via_dict(case, stored)
     except Exception as e:   # noqa: BLE001
         res['err'] = f'{type(e).__name__}: {str(e)[:120]}'
     finally:
         shutil.rmtree(tmp, ignore_errors=True)
     return res
+
+
+def load_via_source(case, store, chunk_info, prefix):
+    """the public path: telstate with the (unaligned) chunk_info -> TelstateDataSource -> source.data"""
+    import katsdptelstate
+    from katdal.datasources import TelstateDataSource, view_l0_capture_stream
+    out = dict(err=None)
+    try:
+        telstate = katsdptelstate.TelescopeState()
+        cbid, stream = 'cb', 'sdp_l0'
+        cs_view = telstate.view(telstate.join(cbid, stream))
+        s_view = telstate.view(stream)
+        cs_view['chunk_info'] = chunk_info
+        cs_view['first_timestamp'] = 128.0
+        s_view['sync_time'] = 1600000000.0
+        s_view['int_time'] = 2.0
+        s_view['bandwidth'] = float(case['F']) * 1e6
+        s_view['center_freq'] = 1284e6
+        s_view['n_chans'] = case['F']
+        s_view['n_bls'] = case['B']
+        s_view['bls_ordering'] = np.array([('m000h', 'm000h')] * case['B'])
+        s_view['need_weights_power_scale'] = False
+        s_view['stream_type'] = 'sdp.vis'
+        telstate['sdp_archived_streams'] = [stream]
+        view, cbid_out, sn = view_l0_capture_stream(telstate, cbid, stream)
+        kw = dict(chunk_store=store, upgrade_flags=bool(case['via_source']))
+        if case['pre'] is not None:
+            t0, t1, f0, f1 = case['pre']
+            kw['preselect'] = dict(dumps=slice(t0, t1), channels=slice(f0, f1))
+        src = TelstateDataSource(view, cbid_out, sn, **kw)
+        out['n_ts'] = len(src.timestamps)
+        out['vis'] = src.data.vis.compute()
+        out['flags'] = src.data.flags.compute()
+        out['weights'] = src.data.weights.compute()
+    except Exception as e:   # noqa: BLE001
+        out['err'] = f'{type(e).__name__}: {str(e)[:120]}'
+    return out
+
+
+def load_via_dict(case, stored):
+    """in-memory store whose get_chunk hands out views of its own arrays: load with whole arrays absent, check the
+    store still holds what was put there, put the absent arrays back and load again"""
+    from katdal.chunkstore_dict import DictChunkStore
+    from katdal.datasources import _align_chunk_info
+    from katdal.vis_flags_weights import ChunkStoreVisFlagsWeights
+    out = dict(err=None)
+    try:
+        store = DictChunkStore()
+        prefix = 'cb-sdp-l0'
+        chunk_info = {}
+        for a in ARRAYS:
+            arr = stored[a]
+            ch = da.core.normalize_chunks(tuple(tuple(c) for c in case['chunks'][a]), arr.shape)
+            chunk_info[a] = {'prefix': prefix, 'chunks': ch, 'dtype': np.lib.format.dtype_to_descr(arr.dtype),
+                             'shape': arr.shape}
+            if a not in case['dict_absent']:
+                store.arrays[store.join(prefix, a)] = arr.copy()
+        chunk_info = _align_chunk_info(chunk_info)
+        for phase in ('absent', 'complete'):
+            vfw = ChunkStoreVisFlagsWeights(store, chunk_info)
+            out[phase] = (vfw.vis.compute(), vfw.flags.compute(), vfw.weights.compute())
+            out[phase + '_store_intact'] = all(
+                np.array_equal(store.arrays[store.join(prefix, a)], stored[a])
+                for a in ARRAYS if store.join(prefix, a) in store.arrays)
+            for a in case['dict_absent']:
+                store.arrays[store.join(prefix, a)] = stored[a].copy()
+    except Exception as e:   # noqa: BLE001
+        out['err'] = f'{type(e).__name__}: {str(e)[:120]}'
+    return out
 
 
 def model_lines(case):
@@ -246,6 +326,40 @@ def evaluate(ctx, cases):
                 elif not np.array_equal(impl['flags'], flags):
                     w = np.argwhere(impl['flags'] != flags)[0].tolist()
                     v = f'flags differ at {w}: got {impl["flags"][tuple(w)]} expected {flags[tuple(w)]}'
+        if v is None and impl.get('src') is not None:
+            sr = impl['src']
+            ctx.tag('via-source-upgrade-flags-' + str(bool(c['via_source'])))
+            if sr['err']:
+                v = (f"TelstateDataSource(upgrade_flags={bool(c['via_source'])}) raised {sr['err']} although missing "
+                     f"chunks / dumps must load as zeros and data_lost")
+            else:
+                vis, flags, weights = expected(c, spec_maps)
+                for nm, got, exp in (('vis', sr['vis'], vis), ('flags', sr['flags'], flags),
+                                     ('weights', sr['weights'], weights)):
+                    if got.shape != exp.shape or not np.array_equal(got, exp):
+                        v = (f"through TelstateDataSource(upgrade_flags={bool(c['via_source'])}) {nm} "
+                             f"(shape {got.shape}) differs from the stored data with zeros / data_lost at the "
+                             f"missing elements (shape {exp.shape})")
+                        break
+        if v is None and impl.get('dict') is not None:
+            dr = impl['dict']
+            ctx.tag('via-dict-store')
+            if dr['err']:
+                v = f"loading from a DictChunkStore with arrays {c['dict_absent']} absent raised {dr['err']}"
+            else:
+                grid = {a: [list(g) for g in itertools.product(*[range(len(x)) for x in c['chunks'][a]])]
+                        for a in ARRAYS}
+                for phase in ('absent', 'complete'):
+                    c2 = dict(c, pre=None, missing={a: (grid[a] if phase == 'absent' and a in c['dict_absent'] else [])
+                                                    for a in ARRAYS})
+                    exp = expected(c2, spec_maps)
+                    for nm, got, e in zip(('vis', 'flags', 'weights'), dr[phase], exp):
+                        if v is None and (got.shape != e.shape or not np.array_equal(got, e)):
+                            v = (f"DictChunkStore load ({'arrays ' + str(c['dict_absent']) + ' absent' if phase == 'absent' else 'second load after the absent arrays were stored'}): "
+                                 f"{nm} differs from the stored data with data_lost exactly at the missing elements")
+                    if v is None and not dr[phase + '_store_intact']:
+                        v = (f"loading with arrays {c['dict_absent']} absent modified the chunks held by the store "
+                             f"(flags other than data_lost must equal what was stored)")
         ctx.count(json.dumps(c, sort_keys=True), 0 < n_missing < n_chunks,
                   sample={'shape': [c['T'], c['F'], c['B']], 'chunks': c['chunks'], 'missing': c['missing'],
                           'pre': c['pre']})
